@@ -41,6 +41,15 @@ package prefix
 //@     optn6(resp.(*dhcpv6.Message))[1] == old(optn6(resp.(*dhcpv6.Message))[1]) && optlast6(resp.(*dhcpv6.Message))[1] == old(optlast6(resp.(*dhcpv6.Message))[1]) && \
 //@     optn6(resp.(*dhcpv6.Message))[14] == old(optn6(resp.(*dhcpv6.Message))[14]) && sent == old(sent)
 
+// C09: a hint that names no address and asks for no particular length ("no prefix hint at all":
+// no IAPrefix option, a zero-length IAPrefix, or ::/0)
+//@ pure func unspecific(h *dhcpv6.OptIAPrefix) bool = h.Prefix == nil || \
+//@     ((len(h.Prefix.IP) == 0 || ipeqh(heap8(), h.Prefix.IP, net.IPv6zero)) && (len(h.Prefix.Mask) == 0 || mszh(heap8(), h.Prefix.Mask) == 0))
+// ... is served from the client's existing leases: when such a hint is still unsatisfied, every
+// lease the client holds has been handed out in this IA_PD
+//@ pure func reoffered(hints []*dhcpv6.OptIAPrefix, n int, satisfied *bitset.BitSet, givenOut *bitset.BitSet, nleases int) bool = \
+//@     forall i in 0..n: (unspecific(hints[i]) && !bits(satisfied)[uint(i)]) ==> (forall j in 0..nleases: bits(givenOut)[uint(j)])
+
 //@ func (*Handler).Handle
 //@   implements handler.Handler6
 //@   requires hinv(h) && !held(h.Mutex)
@@ -69,9 +78,21 @@ package prefix
 //@   loop 5: invariant hinv(h) && held(h.Mutex) && resp6ok(resp) && msg == inner6(req) && msg != nil && client != nil && frame6(req, resp) && iapdResp != nil && iapdResp.IaId == iapd.IaId && satisfied != nil && givenOut != nil && satisfied != givenOut
 //@   loop 5: invariant blen(satisfied) >= uint(len(hints)) && blen(givenOut) >= uint(len(knownLeases)) && (forall i in 0..len(hints): hints[i] != nil) && h$3 != nil
 //@   loop 5: invariant optn6(resp.(*dhcpv6.Message)) == atentry(optn6(resp.(*dhcpv6.Message)))
+//@   loop 4: invariant[C09:unspecific-hints-are-served-from-existing-leases] reoffered(hints, loopindex + 1, satisfied, givenOut, len(knownLeases))
+//@   loop 5: invariant[C09:unspecific-hints-are-served-from-existing-leases] reoffered(hints, hintIdx$2, satisfied, givenOut, len(knownLeases))
+//@   loop 5: invariant[C09:unspecific-hints-are-served-from-existing-leases] unspecific(h$3) ==> (forall j in 0..loopindex + 1: bits(givenOut)[uint(j)])
+//@   loop 5: invariant 0 <= hintIdx$2 && hintIdx$2 < len(hints) && h$3 == hints[hintIdx$2]
 //@   loop 6: invariant hinv(h) && held(h.Mutex) && resp6ok(resp) && msg == inner6(req) && msg != nil && client != nil && frame6(req, resp) && iapdResp != nil && iapdResp.IaId == iapd.IaId && satisfied != nil && givenOut != nil && satisfied != givenOut
 //@   loop 6: invariant blen(satisfied) >= uint(len(hints)) && (forall i in 0..len(hints): hints[i] != nil)
 //@   loop 6: invariant optn6(resp.(*dhcpv6.Message)) == atentry(optn6(resp.(*dhcpv6.Message)))
+// (in the allocation loop the hints are judged as they were when the loop started: the loop itself
+// only turns a nil Prefix into an empty one)
+//@   loop 6: invariant[C09:unspecific-hints-are-served-from-existing-leases] forall k in 0..len(hints): (atentry(unspecific(hints[k])) && !bits(satisfied)[uint(k)]) ==> \
+//@       (forall j in 0..len(knownLeases): bits(givenOut)[uint(j)])
+// C09: no new block is consumed for an unspecific hint while the client holds a lease that was not
+// handed out in this IA_PD (a repeated hint-less request is answered from the table)
+//@   assert[C09:no-new-block-while-leases-remain] before "h.allocator.Allocate(*prefix.Prefix)": forall k in 0..len(hints): (k == i && atentry(unspecific(hints[k]))) ==> \
+//@       (forall j in 0..len(knownLeases): bits(givenOut)[uint(j)])
 // C09: every prefix allocated while answering this IA_PD is in the list that is recorded for the client
 //@   loop 6: invariant[C09:every-new-lease-is-recorded] (newLeases == nil ==> alloc_ok == atentry(alloc_ok)) && (newLeases != nil ==> len(newLeases) == len(knownLeases) + (alloc_ok - atentry(alloc_ok)))
 // C08: what is handed out and recorded for a new lease is the block the allocator returned
